@@ -20,7 +20,10 @@ use runner::{replay_check, run_check, Tier};
 macro_rules! dispatch {
     ($id:expr, $f:ident, $($arg:expr),*) => {
         match $id {
+            "C03" => $f(&checks::c03::C03, $($arg),*),
             "C04" => $f(&checks::c04::C04, $($arg),*),
+            "C06" => $f(&checks::c06::C06, $($arg),*),
+            "C05" => $f(&checks::c05::C05, $($arg),*),
             other => {
                 eprintln!("harness error: unknown or unclaimed property {}", other);
                 2
